@@ -508,9 +508,19 @@ def c01(chk, thorough):
         'last-but-one score), the order of the explained variances, convergence (C18), spectral correctness (C02).')
     chk.assumptions = ['real arithmetic; norms positive (the null component is C18)',
                        'the kernel table: MT_DVectorMatrixDotProduct adds E\'t, MT_MatrixDVectorDotProduct adds E p, DVectNorm divides by the norm (cell forms decided under C11, thread partition under C13)']
-    prog = load_program(chk, ['pca.c', 'matrix.c', 'vector.c', 'algebra.c'])
+    prog = load_program(chk, ['pca.c', 'matrix.c', 'vector.c', 'algebra.c', 'preprocessing.c'])
     pcacheck.run(chk, prog)
-    for r_, fl in (('PCA.component', 1), ('PCA.reset', 1), ('PCA.variance', 2), ('PCA.blocks', 2), ('PCA.score-predictor', 1), ('PCA.back-transform', 3)):
+    from . import guards
+    # "back-transforming with the stored means/scales reproduces the original" and "projecting the training matrix reproduces the scores" also need the
+    # preprocessing to apply stored statistics the way it fitted them, and the back-transform to test the scales the same way (rules of C10)
+    guards.zero_divisor(chk, prog, {'preprocessing.c', 'pca.c'})
+    guards.fit_apply_agreement(chk, prog)
+    guards.scaling_tests(chk, prog, {'preprocessing.c', 'pca.c'})
+    guards.kernel_tolerances(chk, prog, {'pca.c': ['PCA', 'PCAScorePredictor', 'PCAIndVarPredictor', 'calcVarExpressed', 'calcConvergence']},
+                             table={}, rule='SV.tolerance', what='PCA routines (no absolute tolerance on scores, loadings or eigenvalues)')
+    chk.floor('FA.agree', 1)
+    chk.floor('G.scaling-test', 3)
+    for r_, fl in (('PCA.clamp', 3), ('PCA.component', 1), ('PCA.reset', 1), ('PCA.variance', 2), ('PCA.blocks', 2), ('PCA.score-predictor', 1), ('PCA.back-transform', 3)):
         chk.floor(r_, fl)
 
 
@@ -532,9 +542,18 @@ def c04(chk, thorough):
         'floating-point statements, convergence of the iteration, the R2 figures (C15).')
     chk.assumptions = ['real arithmetic; norms and squared norms are positive (non-null latent variable; the null case is C18)',
                        'the kernel table: DVectorMatrixDotProduct adds M\'v, MatrixDVectorDotProduct adds M v, DVectNorm divides by the norm (their cell forms are decided under C11)']
-    prog = load_program(chk, ['pls.c', 'matrix.c', 'vector.c', 'algebra.c'])
+    prog = load_program(chk, ['pls.c', 'matrix.c', 'vector.c', 'algebra.c', 'preprocessing.c'])
     plscheck.run(chk, prog)
-    for r_, fl in (('PLS.iteration', 2), ('PLS.latent-variable', 8), ('PLS.store', 6), ('PLS.predictor', 3), ('PLS.score-predictor', 1), ('PLS.all-lv', 1),
+    from . import guards
+    # "any scaling of either block": the statistics are applied the way they were fitted (rules of C10); no routine drops or alters a component on an
+    # absolute tolerance (the quantities scale with the data)
+    guards.zero_divisor(chk, prog, {'preprocessing.c', 'pls.c'})
+    guards.fit_apply_agreement(chk, prog)
+    guards.scaling_tests(chk, prog, {'preprocessing.c', 'pls.c'})
+    guards.kernel_tolerances(chk, prog, {'pls.c': ['LVCalc', 'PLS', 'PLSScorePredictor', 'PLSYPredictor', 'PLSYPredictorAllLV', 'PLSBetasCoeff', 'calcConvergence']},
+                             table={}, rule='SV.tolerance', what='PLS routines (no absolute tolerance on scores, loadings, weights or inner coefficients)')
+    chk.floor('FA.agree', 1)
+    for r_, fl in (('PLS.clamp', 3), ('PLS.iteration', 2), ('PLS.latent-variable', 8), ('PLS.store', 6), ('PLS.predictor', 3), ('PLS.score-predictor', 1), ('PLS.all-lv', 1),
                    ('PLS.blocks', 2), ('MX.definition', 1)):
         chk.floor(r_, fl)
 
